@@ -146,6 +146,8 @@ def task_mutants(spec, summ):
         flags.append("-push0")
     if ro.random() < 0.2:
         flags.append("-size")
+    if ro.random() < 0.15:
+        flags.append("-pop-uninterpreted")
     viols = []
     pairs = []
     meta = []
@@ -209,7 +211,7 @@ def task_enum(spec, summ):
     i = spec["index"]
     first = ENUM_VOCAB[i]
     blocks = [[first]] + [[first, a] for a in ENUM_VOCAB] + [[first, a, b] for a in ENUM_VOCAB for b in ENUM_VOCAB]
-    flags = [[], ["-no-simplification"], ["-size"], ["-push0"]][i % 4]
+    flags = [[], ["-no-simplification"], ["-size"], ["-push0"], ["-pop-uninterpreted"]][i % 5]
     pairs, meta = [], []
     for b in blocks:
         if not legal(b, 8):
